@@ -449,6 +449,10 @@ pub fn run_check(prop: &dyn Property, tier: Tier) -> i32 {
             }
         }
     }
+    if let Ok(path) = std::env::var("VRF_DUMP_CASES") {
+        // debugging aid: the generated cases, one per line
+        let _ = std::fs::write(&path, cases.iter().map(|c| c.to_string()).collect::<Vec<_>>().join("\n"));
+    }
     // soundness of the domain predicate used by the shrinker: every generated case is inside it
     let outside = cases.iter().filter(|c| !prop.in_domain(c)).count();
     if outside > 0 {
